@@ -166,8 +166,14 @@ func (r *Run) Event(s string) {
 	if r.KeepLog && len(r.Events) < eventCap {
 		r.Events = append(r.Events, s)
 	}
+
+	if streamEvents { // development aid: a run that does not end has no event log to read afterwards
+		fmt.Fprintf(os.Stderr, "[%v] %s\n", r.Now(), s)
+	}
 	r.mu.Unlock()
 }
+
+var streamEvents = os.Getenv("VERIF_STREAM") != ""
 
 func (r *Run) schedEvent(id int, site string) {
 	r.mu.Lock()
